@@ -17,9 +17,12 @@ os.chdir("/verif")
 args = sys.argv[1:]
 jobs = 16
 tier = "quick"
+PROPS = "all"
 while args and args[0].startswith("-"):
     if args[0] == "-j":
         jobs = int(args[1]); args = args[2:]
+    elif args[0] == "--props":
+        PROPS = args[1]; args = args[2:]
     elif args[0] == "--tier":
         tier = args[1]; args = args[2:]
     else:
@@ -39,7 +42,7 @@ def one(d):
             if r.returncode != 0:
                 return name, "PATCH-FAILS", (r.stderr or r.stdout).strip()[:100]
         out = subprocess.run(
-            ["/venv/bin/python", "-m", "hyverif", "all", "--no-write", "--repo", tmp, "--tier", tier],
+            ["/venv/bin/python", "-m", "hyverif", PROPS, "--no-write", "--repo", tmp, "--tier", tier],
             capture_output=True, text=True, timeout=1800, env={**os.environ, "VERIF_TIER": ""},
         ).stdout
     finally:
@@ -62,5 +65,5 @@ for name, viol, info in rows:
 own = sum(1 for n, v, _ in rows if isinstance(v, list) and n.split("-")[0] in v)
 caught = sum(1 for n, v, _ in rows if isinstance(v, list) and v)
 print(f"{caught}/{len(rows)} caught by some check; {own}/{len(rows)} by the check of the property they target")
-if not only:
+if not only and PROPS == "all":
     json.dump(matrix, open("/verif/seeded/MATRIX.json", "w"), indent=1, sort_keys=True)
